@@ -4,8 +4,9 @@
    (encode.go encodeValue :1227-1236, decode.go decodeValueNoCheckNil :1561-1570).
    The choice functions themselves are NOT hand written: Gen/Choice.v is translated from
    encFnLoad / decFnLoad on every run. *)
-From Coq Require Import Bool.
+From Coq Require Import Bool List String.
 From Verif Require Import Gen.Choice.
+Import ListNotations.
 Open Scope bool_scope.
 
 (* both halves of each pair, through the value or the pointer method set *)
@@ -114,6 +115,31 @@ Definition dec_pos (q : position) : pos :=
   | PPtr | PPtrPtr | PIfacePtr | PTop => mkpos true true
   | _ => mkpos false true
   end.
+
+(* ---- the builtin shortcut, per position.  A value whose type is in the builtin list (numbers,
+   string, []byte, time.Time, Raw) is not coded through the chosen function when it is a struct
+   field (si.encBuiltin / si.decBuiltin), a slice/array element or a map key/value
+   (ti.tielem/tikey.flagEncBuiltin, flagDecBuiltin) or a top-level value (encodeBuiltin /
+   decode type switch): it goes straight to the type switch, whatever the chain would choose --
+   in particular whatever TimeNotBuiltin says.  Behind a pointer or inside an interface the chain
+   decides.  (So with TimeNotBuiltin a time.Time is written natively in containers and through
+   MarshalBinary behind pointers: position dependent, but the same on both sides as long as the
+   two builtin lists agree.) ---- *)
+Definition builtin_pos (q : position) : bool :=
+  match q with
+  | PTop | PField | PSliceElem | PArrayElem | PMapValue | PMapKey => true
+  | _ => false
+  end.
+
+Definition enc_mech_at (q : position) (encBuiltin : bool) (f : flags) : mech :=
+  if builtin_pos q && encBuiltin then MKind else fst (enc_choice f).
+
+Definition dec_mech_at (q : position) (decBuiltin : bool) (f : flags) : mech :=
+  if builtin_pos q && decBuiltin then MKind else fst (dec_choice f).
+
+(* membership in the translated builtin lists *)
+Definition is_enc_builtin (t : string) : bool := existsb (String.eqb t) enc_builtin_types.
+Definition is_dec_builtin (t : string) : bool := existsb (String.eqb t) dec_builtin_types.
 
 (* ---- round trip through whatever is chosen: user hooks (and the kind coding) are abstract, one
    pair per mechanism, with the wire form they produce / consume ---- *)
